@@ -168,6 +168,9 @@ def Tok.isTag : Tok → Bool
   | .startTag .. | .endTag .. | .emptyTag .. => true
   | _ => false
 
+/-- membership in a character class given as inclusive ranges -/
+def inRanges (rs : List (Nat × Nat)) (c : Nat) : Bool := rs.any fun r => r.1 ≤ c && c ≤ r.2
+
 def lit (s : String) : Str := s.toList.map Char.toNat
 
 end H5
